@@ -74,6 +74,14 @@ CLAIMED = {
          "Design: 0.17-0.76 M states: MergedAgrees, MechanismAgrees, ExitRestores, StopsOwnApp. Conformance: 42 + 7 methods found by introspection, arguments passed positionally / by keyword / from nested contexts / by default, exits by exception, discovered connections; clauses ResolvedX/Y/P/AppId, RequiredRejectedBeforeSend, NothingSentOnReject, ExitRestores, ApplicationExitStops, RightConnection.",
          "Trusted: TLC, the datagram decoder of the fake machine in harness/props/c18.py. Five known findings (context core leaking into internal reads of five methods) are listed in known_findings.json.",
          "DESIGN.md §6 C18"),
+ "C06": ("TLA+ specs Scp / ScpDesign (client loop + network + clock; safety invariants, NoEarlyRetransmit, termination under fairness; the no-lifetime variant refuted) + ScpTrace validating every datagram / callback / exception of the real send_scp_burst on a virtual-time lossy network, incl. schedules taken from tlc -simulate behaviours",
+         "Design: 0.26 M states quick (3 commands, window 1-2, tries 1-2, 4 sequence numbers, 2 bursts) + a wrap configuration; 2.9 M thorough; liveness checked. Conformance: exhaustive schedule trees at small scope (alphabet lost / ok / at-deadline / late / dup / busy / fatal), TLC-simulated schedules, random connections with 1-3 bursts: WindowBound, SeqNotOutstanding, NoEarlyRetransmit, TriesBound, AtMostOnce, RightReply, ExactlyOnce, ReturnedComplete, TimeoutHonest, FatalRaises, Terminates.",
+         "Trusted: TLC, harness/env/net.py (environment and recorder). Assumption: a reply is not delivered after its sequence number was re-issued by the protocol's own allocation rule (reference allocator in the environment; the design job shows the wrong-callback interleaving without it). Time is virtual in 0.25 s ticks.",
+         "DESIGN.md §6 C06"),
+ "C14": ("TLA+ specs Probe (wire layouts of info / P2P / sver / status / IOBUF / counters; model chips, links, reservation rule) + ProbeDesign (encode/decode round trips, reservation procedure; TLC exhaustive) + ProbeTrace validating get_system_info / get_machine / build_machine / build_core_constraints / status readers against generated machine states on the simulated machine",
+         "Design: 0.13-0.94 M states: InfoRoundTrip, P2PRoundTrip across the 8-per-word boundary, ResvRuleSound / ResvProcedureIsRule for every busy-core pattern on <= 3 chips x 4 cores. Conformance: 271 machine states quick / 2.5 k thorough incl. sparse 255-wide address spaces, unresponsive chips, both version encodings, IOBUF chains; 30+ clauses incl. ChipsExactlyResponding, MachineLinksTrue, ReservationsCoverExactlyNonIdleCores, ReservationsDisjoint and Env* clauses validating the simulator's replies against the documented layouts.",
+         "Trusted: TLC, harness/env/probesim.py as environment (validated by Env* clauses). build_application_map is anchored code but not part of the statement and is not judged.",
+         "DESIGN.md §6 C14"),
 }
 NOT_YET = "check not built yet in this round (planned in DESIGN.md §6); not claimed until its spec and conformance harness exist"
 
